@@ -20,6 +20,8 @@ where
 {
     db: DB,
     cache: BTreeMap<u64, V>,
+    #[cfg(feature = "verif-hooks")]
+    verif_name: String,
 }
 
 impl<V> BlockDatabase<V>
@@ -42,6 +44,8 @@ where
         Ok(Self {
             db,
             cache: BTreeMap::new(),
+            #[cfg(feature = "verif-hooks")]
+            verif_name: name.to_string(),
         })
     }
 
@@ -82,8 +86,12 @@ where
     /// It does not clear the cache
     pub fn commit(&mut self) -> Result<(), Box<dyn Error>> {
         for (key, value) in self.cache.iter() {
+            #[cfg(feature = "verif-hooks")]
+            crate::verif::fp(&self.verif_name, "put", &key.encode_vec(), Some(&value.encode_vec()));
             self.db.put(&key.encode_vec(), &value.encode_vec())?;
         }
+        #[cfg(feature = "verif-hooks")]
+        crate::verif::fp(&self.verif_name, "flush", &[], None);
         self.db.flush()?;
         Ok(())
     }
@@ -126,12 +134,37 @@ where
         let last_block = self.last_key()?;
         if let Some(end) = last_block {
             while end >= current {
+                #[cfg(feature = "verif-hooks")]
+                crate::verif::fp(&self.verif_name, "del", &U64ED::from(current).encode_vec(), None);
                 self.db.delete(&U64ED::from(current).encode_vec())?;
                 self.cache.remove(&current);
                 current += 1;
             }
         }
         Ok(())
+    }
+}
+
+#[cfg(feature = "verif-hooks")]
+impl<V> BlockDatabase<V>
+where
+    V: Encode + Decode + Clone,
+{
+    /// Raw contents (encoded bytes) of the column and of the in-memory cache.
+    pub fn verif_dump(&self) -> (Vec<(Vec<u8>, Vec<u8>)>, Vec<(Vec<u8>, Vec<u8>)>) {
+        let mut db = Vec::new();
+        for kv in self.db.full_iterator(IteratorMode::Start) {
+            if let Ok((k, v)) = kv {
+                db.push((k.to_vec(), v.to_vec()));
+            }
+        }
+        let cache = self.cache.iter().map(|(k, v)| (k.encode_vec(), v.encode_vec())).collect();
+        (db, cache)
+    }
+
+    /// Name given at construction.
+    pub fn verif_name(&self) -> &str {
+        &self.verif_name
     }
 }
 
